@@ -130,6 +130,36 @@ pub fn catch<T>(f: impl FnOnce() -> T) -> Option<T> {
     std::panic::catch_unwind(std::panic::AssertUnwindSafe(f)).ok()
 }
 
+/// Runs `f` inside a tokio task whose cooperative-scheduling budget has been used up earlier in the same poll (the
+/// task received ready messages until tokio answered `Pending` although more were waiting).  Returns f's result and
+/// whether the budget was indeed exhausted.  Code that does not await is unaffected by the budget — that is the point.
+pub fn in_exhausted_tokio_task<R: 'static>(f: impl FnOnce() -> R + 'static) -> (R, bool) {
+    use std::future::Future;
+    let rt = tokio::runtime::Builder::new_current_thread().build().unwrap();
+    let local = tokio::task::LocalSet::new();
+    local.block_on(&rt, async move {
+        tokio::task::spawn_local(async move {
+            let (tx, mut rx) = tokio::sync::mpsc::unbounded_channel::<u8>();
+            for _ in 0..2000 {
+                tx.send(0).unwrap();
+            }
+            let w = std::task::Waker::noop();
+            let mut cx = std::task::Context::from_waker(w);
+            let mut exhausted = false;
+            for _ in 0..1999 {
+                let mut fut = std::pin::pin!(rx.recv());
+                if fut.as_mut().poll(&mut cx).is_pending() {
+                    exhausted = true;
+                    break;
+                }
+            }
+            (f(), exhausted)
+        })
+        .await
+        .unwrap()
+    })
+}
+
 pub fn quiet_panics() {
     if std::env::var("MV_DEBUG").is_ok() { return; }
     std::panic::set_hook(Box::new(|_| {}));
